@@ -554,7 +554,7 @@ class C06Engine(GenEngineBase):
             "steps": ex.steps,
             "case_digest": digest_of(hist)[:16],
             "nontrivial": texts >= 3 and orc.probes.get("text_from_context_with_history", 0) >= 1,
-            "sample": {"history": hist} if len(hist) <= 12 and texts >= 2 else None,
+            "sample": {"n_actions": len(hist), "history_first_actions": hist[:14], "texts_checked": texts},
         }
 
     def after_batch(self, agg, tier, master):
